@@ -28,9 +28,11 @@ TLogin == /\ Cur("Login") /\ Login(E.addr, E.good, 1) /\ now = E.now
 TLogout == Cur("Logout") /\ Logout(E.cookies) /\ now = E.now /\ E.status = 200 /\ StMatch(E.st)
 TRequest == /\ Cur("Request") /\ Request(E.cookies) /\ now = E.now
             /\ last'.served = E.served /\ last'.served = E.servedAll /\ StMatch(E.st)
+TPoll == /\ Cur("Poll") /\ Poll(E.cookies) /\ now = E.now /\ E.status = 200
+         /\ last'.authenticated = E.authenticated /\ StMatch(E.st)
 TTick == Cur("Tick") /\ Tick(E.d) /\ now' = E.now /\ StMatch(E.st)
 Consumed == TLCSet(7, IF TLCGet(7) < l THEN l ELSE TLCGet(7))
-TNext == (TReset \/ TLogin \/ TLogout \/ TRequest \/ TTick) /\ Consumed
+TNext == (TReset \/ TLogin \/ TLogout \/ TRequest \/ TPoll \/ TTick) /\ Consumed
 TSpec == TInit /\ [][TNext]_tvars
 Reached == PrintT(<<"CONF", ToJson([reached |-> TLCGet(7), total |-> Len(TraceLog)])>>)
 ====
